@@ -100,7 +100,7 @@ PROPS['C10'] = dict(
 PROPS['C19'] = dict(
     lean_targets=['AnonModel.Props.C19', 'AnonModel.Props.GenConstsC19', 'AnonModel.Props.C19B58'],
     required_theorems=['C19_version_tag_unchanged', 'C19_content_layout', 'C19_read_back', 'C19_name_is_hash', 'C19_final_atomic', 'C19_temp_is_prefix',
-                       'C19_no_temp_after_error', 'C19_success_publishes', 'C19_temp_ne_final', 'C19_base58_injective', 'C19_base58_digits_value', 'C19_name_injective'],
+                       'C19_no_temp_after_error', 'C19_success_publishes', 'C19_temp_ne_final', 'C19_base58_injective_any', 'C19_base58_injective', 'C19_base58_digits_value', 'C19_name_injective'],
     families=[dict(name='c19')],
     default_dir='exact',
     spec_is_model=['c19'],
